@@ -264,6 +264,7 @@ def r4_dispatch(prog, rep: Report, fam: Family):
         if g is None or g in seen:
             continue
         seen.add(g)
+        g = prog.resolve_view(c, "__getitem__") or g       # private helpers inlined (sa/inline.py)
         rep.fn(g)
         if len(g.params) < 2:
             rep.unrec("C11.R4", g, "selector", "no selector parameter")
@@ -363,6 +364,11 @@ def _iter_sources(it: ast.expr, flow: Flow, sel: str, self_name) -> Optional[Set
         return out
     if _is_slice_mapping(it, sel, self_name):
         return {"slice"}
+    if isinstance(it, ast.IfExp):
+        a, b = _iter_sources(it.body, flow, sel, self_name), _iter_sources(it.orelse, flow, sel, self_name)
+        if a is None or b is None:
+            return None
+        return a | b
     return None
 
 
@@ -487,8 +493,11 @@ def r5_index(prog, rep: Report, fam: Family):
     else:
         rep.fn(rdr)
         good = False
+        from ..util import comprehension_of
         for r in returns_of(rdr.node):
             v = r.value
+            if isinstance(v, ast.Name):
+                v = comprehension_of(rdr.node, v.id) or v      # a list built by an append loop
             # the comprehension may be handed to a sequence constructor (list(...), tuple(...), array('q', ...)): the read-only
             # classes only index the table (what the mutable classes need of it is C12.R6)
             if isinstance(v, ast.Call) and v.args and isinstance(v.args[-1], (ast.GeneratorExp, ast.ListComp)) and not v.keywords \
